@@ -998,6 +998,10 @@ func child(c *vf.Ctx) {
 	start, _ := strconv.Atoi(c.ChildArgs[0])
 	count, _ := strconv.Atoi(c.ChildArgs[1])
 	switch c.Child {
+	case "atom":
+		childAtom(c, start, count, false)
+	case "atomrace":
+		childAtom(c, start, count, true)
 	case "bulk":
 		childBulk(c, start, count, false)
 	case "bulkrace":
@@ -1107,10 +1111,25 @@ func runRaceChildren(c *vf.Ctx, total, nChildren int, seed int64) {
 }
 
 func runBulkChildren(c *vf.Ctx, total, nChildren int, race bool, seed int64) {
-	per := (total + nChildren - 1) / nChildren
 	name := "bulk"
 	if race {
 		name = "bulkrace"
+	}
+	runExtraChildren(c, name, total, nChildren, race, seed)
+}
+
+// runExtraChildren drives the porcupine-free families ("bulk…" and "atom…" child modes).
+func runExtraChildren(c *vf.Ctx, name string, total, nChildren int, race bool, seed int64) {
+	per := (total + nChildren - 1) / nChildren
+	planOf := func(mark string) any {
+		f := strings.Fields(mark)
+		if len(f) == 2 && f[0] == "atom" {
+			return map[string]any{"atomplan": atomPlanFor(c, atoi(f[1])), "fatal": "crash"}
+		}
+		if len(f) == 2 {
+			return map[string]any{"bulk": bulkPlanFor(c, atoi(f[1])), "fatal": "crash"}
+		}
+		return map[string]any{"fatal": "crash"}
 	}
 	vf.Parallel(nChildren, nChildren, func(i int) {
 		start := i * per
@@ -1123,11 +1142,11 @@ func runBulkChildren(c *vf.Ctx, total, nChildren int, race bool, seed int64) {
 		}
 		switch {
 		case res.Deadlock:
-			c.Violation("deadlock", fmt.Sprintf("Go runtime reported 'all goroutines are asleep' during large-operation round %s", res.LastMark), map[string]any{"bulk": bulkPlanFor(c, atoi(strings.TrimPrefix(res.LastMark, "bulk "))), "fatal": "deadlock"})
+			c.Violation("deadlock", fmt.Sprintf("Go runtime reported 'all goroutines are asleep' during round %s", res.LastMark), planOf(res.LastMark))
 		case res.TimedOut:
 			hung(c, res, name+" child")
 		case res.ExitCode != 0 && len(res.Races) == 0:
-			c.Violation(crashFP(res.Fatal), fmt.Sprintf("%s child died (%s) during large-operation round %s", name, res.Fatal, res.LastMark), map[string]any{"bulk": bulkPlanFor(c, atoi(strings.TrimPrefix(res.LastMark, "bulk "))), "fatal": res.Fatal})
+			c.Violation(crashFP(res.Fatal), fmt.Sprintf("%s child died (%s) during round %s", name, res.Fatal, res.LastMark), planOf(res.LastMark))
 		}
 	})
 }
@@ -1143,6 +1162,7 @@ func replay(c *vf.Ctx) {
 		Replay struct {
 			Report   string    `json:"report"`
 			Bulk     *BulkPlan `json:"bulk"`
+			Atom     *AtomPlan `json:"atomplan"`
 			Deadlock bool      `json:"deadlock"`
 			Plan     *Plan     `json:"plan"`
 			History  []Rec     `json:"history"`
@@ -1154,12 +1174,15 @@ func replay(c *vf.Ctx) {
 	}
 	rp := top.Replay
 	switch {
+	case rp.Atom != nil:
+		replayAtom(c, *rp.Atom)
 	case rp.Bulk != nil:
 		replayBulk(c, *rp.Bulk)
 	case rp.Report != "":
 		// a race report: re-run the race workload of the recorded seed
 		runRaceChildren(c, c.Pick(3000, 60000), 2, top.Seed)
 		runBulkChildren(c, c.Pick(24, 300), 1, true, top.Seed)
+		runExtraChildren(c, "atomrace", c.Pick(16, 160), 1, true, top.Seed)
 	case len(rp.History) > 0:
 		// 1. the recorded history is decided again (deterministic)
 		v := checkHistory(rp.History)
@@ -1200,7 +1223,7 @@ func run(c *vf.Ctx) {
 		replay(c)
 		return
 	}
-	c.SetRule("one history = 2-16 goroutines released by a spin barrier, 4-12 operations each (<= 128 recorded operations) on 1-3 views (realms \"\", a, ab; plain / flushkv / debug wrapped) of one mapdb store, keys {\"\",a,b,ab}, every Set value unique, seeded Gosched jitter, GOMAXPROCS cycling through 2/4/16; call/return ticks from one atomic counter; a committed batch is one operation per written key with the Commit window. evaluations = recorded operations handed to porcupine. overlapping_pairs = pairs of operations of different goroutines whose [call,return] windows intersect; distinct_nontrivial = distinct observed schedules (hash of the tick-ordered operation list) in which at least one such pair contains a mutation. Second family (no porcupine): large-operation rounds – one goroutine commits batches of 1/100/511/512/513/2000 mutations, DeletePrefix/Clear over 1000 keys and iterates over up to 2600 entries through its own views while 4 single-writer streams (1200 Set/Delete/Get each, unique values, own keys inside and outside the ranges the large operations touch) and 2 readers work through other view objects; every Get, every iterated entry or absence and the final state is judged per key: the value must come from a mutation invoked before the observation returned and not followed by another mutation of that key that completed before the observation began; unknown keys must not appear")
+	c.SetRule("one history = 2-16 goroutines released by a spin barrier, 4-12 operations each (<= 128 recorded operations) on 1-3 views (realms \"\", a, ab; plain / flushkv / debug wrapped) of one mapdb store, keys {\"\",a,b,ab}, every Set value unique, seeded Gosched jitter, GOMAXPROCS cycling through 2/4/16; call/return ticks from one atomic counter; a committed batch is one operation per written key with the Commit window. evaluations = recorded operations handed to porcupine. overlapping_pairs = pairs of operations of different goroutines whose [call,return] windows intersect; distinct_nontrivial = distinct observed schedules (hash of the tick-ordered operation list) in which at least one such pair contains a mutation. Second family (no porcupine): large-operation rounds – one goroutine commits batches of 1/100/511/512/513/2000 mutations, DeletePrefix/Clear over 1000 keys and iterates over up to 2600 entries through its own views while 4 single-writer streams (1200 Set/Delete/Get each, unique values, own keys inside and outside the ranges the large operations touch) and 2 readers work through other view objects; every Get, every iterated entry or absence and the final state is judged per key: the value must come from a mutation invoked before the observation returned and not followed by another mutation of that key that completed before the observation began; unknown keys must not appear. Third family (no porcupine; linearizability of a multi-key operation as ONE operation – the statement: every operation takes effect at one instant): (1) a fully populated key family of 1/100/1023/1024/1025/2048/5000/20000 entries is removed by exactly one DeletePrefix/Clear while 5 readers iterate (Iterate/IterateKeys, both directions) through the mutating view object, sibling, parent and nested views: every iteration reports all or none of the family; (2) an Iterate whose consumer the harness parks after j entries while one writer applies a known sequence of Sets/Deletes through the same/sibling/parent/nested view and returns must deliver the content at one point S0..Sn of that sequence; (3) free-running iterations with a slow consumer against a numbered writer sequence must deliver some Si with completed-at-call <= i <= started-at-return")
 	nPlain := c.Pick(20000, 500000)
 	nRace := c.Pick(3000, 60000)
 	var wg sync.WaitGroup
@@ -1211,7 +1234,21 @@ func run(c *vf.Ctx) {
 	wg.Add(2)
 	go func() { defer wg.Done(); runBulkChildren(c, nBulk, c.Pick(1, 3), false, c.Seed) }()
 	go func() { defer wg.Done(); runBulkChildren(c, nBulkRace, c.Pick(1, 2), true, c.Seed) }()
+	nAtom, nAtomRace := c.Pick(96, 1600), c.Pick(16, 160)
+	wg.Add(2)
+	go func() { defer wg.Done(); runExtraChildren(c, "atom", nAtom, c.Pick(2, 4), false, c.Seed) }()
+	go func() { defer wg.Done(); runExtraChildren(c, "atomrace", nAtomRace, c.Pick(1, 2), true, c.Seed) }()
 	wg.Wait()
+	c.Require("atom_family_rounds", nAtom*4/10)
+	c.Require("atom_gated_snapshot_checks", nAtom/8)
+	c.Require("atom_free_snapshot_checks_with_writer_progress", nAtom*5)
+	c.Require("atom_family_iterations_overlapping_the_delete", nAtom/2)
+	c.Require("atom_family_iterations_reporting_all", nAtom)
+	c.Require("atom_family_iterations_reporting_none", nAtom)
+	c.Require("atom_race_family_rounds", nAtomRace*4/10)
+	for _, s := range famSizesQuick {
+		c.Require("atom_family_rounds_of_size_"+strconv.Itoa(s), nAtom/20)
+	}
 	c.Require("bulk_rounds", nBulk*9/10)
 	c.Require("bulk_race_rounds", nBulkRace*9/10)
 	c.Require("bulk_writer_mutations_overlapping_large_op", nBulk*50)
